@@ -1049,6 +1049,25 @@ def run(ctx):
     nh, nsc = run_histories(ctx, 8 if q else 40)
     ctx.note('binding C: %d history walks over %d scenarios (every gas profile type and TaurexChemistry; fitting parameters, '
              'layer count, pressure grid, temperature)' % (nh, nsc))
+    # ---- the SOURCE of the opacity data (spec/MC_ChemistrySources.tla): cross-section directory, registered by hand, both at once
+    ctx.expect_refuted('refute-hand-loaded-only-as-fallback', 'MC_ChemistrySources', 'RF_ChemistrySources_hand_fallback.cfg',
+                       'SplitFollowsAvailability', workers=1)
+    src = ctx.check_spec('export-sources', 'MC_ChemistrySources', 'EX_ChemistrySources.cfg', need_actions=('Split',), workers=1).tagged('SRC')
+    for need in ('none', 'directory', 'hand', 'both', 'both_overlapping'):
+        if not any(v['source'] == need for v in src):
+            raise Machinery('vacuous: no opacity-source vector of class %r exported' % need)
+    for need in ('add_opacity', 'load_opacity'):
+        if not any(v['route'] == need and v['order'] == o for v in src for o in ('hand_first', 'path_first')):
+            raise Machinery('vacuous: registration route %r not exported' % need)
+    import shutil
+    import tempfile
+    from .. import fx_chemsources
+    tmp = tempfile.mkdtemp(prefix='c10src_')
+    try:
+        nsrc = fx_chemsources.run_source_vectors(ctx, src, tmp)
+    finally:
+        shutil.rmtree(tmp, ignore_errors=True)
+    ctx.note('opacity-source vectors (directory / by hand via add_opacity, load_opacity, before / after the path / both at once): %d' % nsrc)
     # ---- the composition parameters of a whole model as a registry (spec/ParamFrame.tla, shared with C07): constructor
     # values (explicit, or left at their DEFAULTS) against values written later; fresh objects built at any time
     from .. import fx_paramframe
@@ -1094,6 +1113,15 @@ def replay(ctx, violations):
                     return 1.0
             clear_available()
             run_settings_vector(ctx, {k: w for k, w in v.items() if k not in ('kind', 'kinds', 'route')}, _Fixed(v['kinds'], v['route']))
+        elif v.get('kind') == 'sources':
+            import shutil
+            import tempfile
+            from .. import fx_chemsources
+            tmp = tempfile.mkdtemp(prefix='c10src_')
+            try:
+                fx_chemsources.run_source_vectors(ctx, [{k: w for k, w in v.items() if k != 'kind'}], tmp)
+            finally:
+                shutil.rmtree(tmp, ignore_errors=True)
         elif v.get('kind') == 'recipe':
             validate(ctx, [v['recipe']], 'replay', canary=False)
         elif v.get('kind') == 'mix':
